@@ -68,6 +68,8 @@ struct Oracle {
 	last_requests: usize,
 	/// request ids whose work is certainly over (answered call; subscribe id and unsubscribe id of an ended subscription)
 	finished_ids: Vec<Value>,
+	/// what the last delivered text decided about a pending subscribe: (op, "in-use" | "accepted" | "accepted-twin")
+	sub_events: Vec<(usize, &'static str, String)>,
 }
 
 impl Oracle {
@@ -151,10 +153,27 @@ impl Oracle {
 					self.finished_ids.push(id);
 					return;
 				}
-				for s in self.subs.values_mut() {
+				// subscription ids in use on this connection right now: accepted, not closed by the server, and the client has
+				// not written the unsubscribe call yet (an id is the JSON kind and the value: 7 and "7" are two ids)
+				let in_use: Vec<String> = self.subs.values().filter(|s| s.state == SubState::Active).filter_map(|s| s.sid.clone()).collect();
+				let digits = |t: &str| t.trim_matches('"').to_string();
+				for (op, s) in self.subs.iter_mut() {
 					if s.state == SubState::Pending && s.sub_req == id {
 						let res = o.get("result");
 						let sid_ok = res.map(|r| r.is_u64() || r.is_string()).unwrap_or(false);
+						let new_sid = res.map(|r| r.to_string()).unwrap_or_default();
+						if !is_err && sid_ok && in_use.contains(&new_sid) {
+							// the server handed out an id twice: the client refuses the second subscription; nothing of it stays
+							s.state = SubState::Refused;
+							self.finished_ids.push(id.clone());
+							self.residue[0] += 1;
+							self.sub_events.push((*op, "in-use", new_sid));
+							return;
+						}
+						if !is_err && sid_ok {
+							let twin = in_use.iter().any(|u| *u != new_sid && digits(u) == digits(&new_sid));
+							self.sub_events.push((*op, if twin { "accepted-twin" } else { "accepted" }, new_sid.clone()));
+						}
 						if is_err || !sid_ok {
 							s.state = SubState::Refused;
 							self.finished_ids.push(id.clone());
@@ -348,7 +367,13 @@ fn run_one(out: &mut Out, lines: &[String]) {
 				// a single response bearing the id of finished work matches nothing pending
 				if let Ok(v) = serde_json::from_str::<Value>(&text) {
 					if let (Some(id), true) = (v.get("id"), msg_kind(&v) == MsgKind::Response) {
-						if orc.finished_ids.contains(id) {
+						// … and when no work is open at all (the oracle's own bookkeeping), no response matches anything, whatever
+						// its id: in particular the id reserved for the unsubscribe call of a subscription that never came to be
+						let idle = orc.quiescent();
+						if idle {
+							out.count("stale-response.at-quiescence");
+						}
+						if orc.finished_ids.contains(id) || idle {
 							nontrivial = true;
 							out.count("stale-response.checked");
 							let rejected = obs.fatal.as_deref().map(|f| f.starts_with("notpending:")).unwrap_or(false);
@@ -365,7 +390,33 @@ fn run_one(out: &mut Out, lines: &[String]) {
 				if array_has_response(&text) && obs.fatal.is_none() && !obs.comps.iter().any(|(_, c)| matches!(c, Comp::Batch { .. } | Comp::E(_))) && verdict.is_ok() {
 					verdict = Err(format!("the responses inside the array {text} took no effect: no batch completed and the connection was not given up"));
 				}
+				orc.sub_events.clear();
 				orc.deliver(&text);
+				// the answer to a subscribe call: an id already in use on this connection is refused with InvalidSubscriptionId,
+				// any other id (also the same digits in the other JSON kind) is accepted
+				for (op, what, sid) in &orc.sub_events {
+					let abandoned = orc.subs.get(op).map(|s| s.abandoned).unwrap_or(false);
+					let mine: Vec<&Comp> = obs.comps.iter().filter(|(o, _)| o == op).map(|(_, c)| c).collect();
+					nontrivial = true;
+					out.count(&format!("subscribe-answer.{what}{}", if abandoned { ".abandoned" } else { "" }));
+					if obs.fatal.is_some() || verdict.is_err() {
+						continue;
+					}
+					let bad = match (*what, abandoned) {
+						("in-use", false) => !matches!(mine.as_slice(), [Comp::E(e)] if e == "invalidsubid"),
+						("in-use", true) => !mine.is_empty() || obs.wires.iter().any(|t| t.contains("\"unsub\"")),
+						(_, false) => !matches!(mine.as_slice(), [Comp::Sub(_)]),
+						(_, true) => !mine.is_empty(),
+					};
+					if bad {
+						verdict = Err(format!(
+							"subscribe {op} answered with subscription id {sid} ({what}{}): completions {:?}, written {:?}",
+							if abandoned { ", abandoned by the application" } else { "" },
+							mine.iter().map(|c| c.render()).collect::<Vec<_>>(),
+							obs.wires
+						));
+					}
+				}
 				if obs.fatal.is_some() {
 					dead = true;
 				}
@@ -441,6 +492,8 @@ struct G {
 	next_op: usize,
 	sid_counter: u64,
 	lines: Vec<String>,
+	/// request ids reserved for the unsubscribe call of a subscribe the client refused (subscription id in use)
+	reserved_of_refused: Vec<u64>,
 }
 
 /// a pending acknowledgement the "server" still owes
@@ -721,6 +774,149 @@ impl G {
 				}
 				vec![]
 			}
+			16..=20 => {
+				// The server answers a subscribe call with a subscription id that is STILL IN USE on this connection (a server
+				// that de-duplicates identical subscriptions): the client refuses the second subscription and keeps nothing of
+				// it.  The same digits in the other JSON kind are another id.  The active subscription is not disturbed and ends
+				// by: 16 unsubscribe, 17 drop, 18 server close, 19 lag, 20 unsubscribe written but not yet acknowledged when
+				// the id comes again (then it is free and the new subscription is accepted).
+				out.count(match kind {
+					16 => "cycle.sub.id-in-use.unsub",
+					17 => "cycle.sub.id-in-use.drop",
+					18 => "cycle.sub.id-in-use.server-close",
+					19 => "cycle.sub.id-in-use.lag",
+					_ => "cycle.sub.id-in-use.unsub-unacked",
+				});
+				self.sid_counter += 1;
+				let digits = 5000 + self.sid_counter;
+				let (sid, twin) = if rng.chance(1, 2) { (format!("{digits}"), format!("\"{digits}\"")) } else { (format!("\"{digits}\""), format!("{digits}")) };
+				let str_ids = self.str_ids;
+				let accept = |id: u64, sid: &str| format!("{{\"jsonrpc\":\"2.0\",\"id\":{},\"result\":{sid}}}", idj(id, str_ids));
+				let note = |sid: &str, v: u64| format!("{{\"jsonrpc\":\"2.0\",\"method\":\"sub\",\"params\":{{\"subscription\":{sid},\"result\":{v}}}}}");
+				let mut owed = vec![];
+				// A: accepted, stays active
+				self.lines.push("cl subscribe".into());
+				let a_id = self.next_id;
+				let a_op = self.next_op;
+				self.next_id += 2;
+				self.next_op += 1;
+				self.deliver(&accept(a_id, &sid));
+				if rng.chance(1, 2) {
+					self.deliver(&note(&sid, 1));
+					self.lines.push(format!("cl next {a_op}"));
+				}
+				if kind == 20 {
+					self.lines.push(format!("cl {} {a_op}", if rng.chance(1, 2) { "unsub" } else { "drop" }));
+					owed.push(Owed::UnsubAck(a_id + 1, rng.below(16)));
+				}
+				// B (1..3 times): answered with the id of A
+				let mut twin_op: Option<(usize, u64)> = None;
+				for round in 0..rng.range(1, 3) {
+					self.lines.push("cl subscribe".into());
+					let b_id = self.next_id;
+					let b_op = self.next_op;
+					self.next_id += 2;
+					self.next_op += 1;
+					let abandoned = rng.chance(1, 4);
+					if abandoned {
+						self.lines.push(format!("cl abandon {b_op}"));
+					}
+					if rng.chance(1, 3) {
+						// something else in between
+						self.lines.push("cl call".into());
+						owed.push(Owed::CallAnswer(self.next_id));
+						self.next_id += 1;
+						self.next_op += 1;
+					}
+					self.deliver(&accept(b_id, &sid));
+					if kind == 20 && round == 0 {
+						// the id was free again: B holds it now (if abandoned, the client has written the unsubscribe call itself)
+						if !abandoned {
+							self.deliver(&note(&sid, 2));
+							self.lines.push(format!("cl next {b_op}"));
+							self.lines.push(format!("cl {} {b_op}", if rng.chance(1, 2) { "unsub" } else { "drop" }));
+						}
+						owed.push(Owed::UnsubAck(b_id + 1, rng.below(16)));
+						break;
+					}
+					if kind == 20 {
+						break;
+					}
+					self.reserved_of_refused.push(b_id + 1);
+					if rng.chance(1, 3) {
+						self.sizes();
+					}
+					// the other kind with the same digits is a different id: accepted (once), a second time it is in use itself
+					if rng.chance(1, 2) {
+						self.lines.push("cl subscribe".into());
+						let c_id = self.next_id;
+						let c_op = self.next_op;
+						self.next_id += 2;
+						self.next_op += 1;
+						self.deliver(&accept(c_id, &twin));
+						if twin_op.is_none() {
+							twin_op = Some((c_op, c_id));
+						} else {
+							self.reserved_of_refused.push(c_id + 1);
+						}
+					}
+				}
+				if kind != 20 {
+					// A still gets what is sent for its id, the twin what is sent for the twin
+					self.deliver(&note(&sid, 3));
+					self.lines.push(format!("cl next {a_op}"));
+					if let Some((c_op, _)) = twin_op {
+						self.deliver(&note(&twin, 4));
+						self.lines.push(format!("cl next {c_op}"));
+					}
+					if rng.chance(1, 2) {
+						self.sizes();
+					}
+					match kind {
+						16 => {
+							self.lines.push(format!("cl unsub {a_op}"));
+							owed.push(Owed::UnsubAck(a_id + 1, rng.below(16)));
+						}
+						17 => {
+							self.lines.push(format!("cl drop {a_op}"));
+							owed.push(Owed::UnsubAck(a_id + 1, rng.below(16)));
+						}
+						18 => {
+							self.deliver(&format!("{{\"jsonrpc\":\"2.0\",\"method\":\"sub\",\"params\":{{\"subscription\":{sid},\"error\":\"bye\"}}}}"));
+							if rng.chance(1, 2) {
+								self.lines.push(format!("cl drop {a_op}"));
+							}
+						}
+						_ => {
+							for v in 0..=self.cap {
+								self.deliver(&note(&sid, 10 + v));
+							}
+							if rng.chance(1, 2) {
+								self.lines.push(format!("cl drop {a_op}"));
+							}
+							owed.push(Owed::UnsubAck(a_id + 1, rng.below(16)));
+						}
+					}
+					if let Some((c_op, c_id)) = twin_op {
+						self.lines.push(format!("cl {} {c_op}", if rng.chance(1, 2) { "unsub" } else { "drop" }));
+						owed.push(Owed::UnsubAck(c_id + 1, rng.below(16)));
+					}
+					// now the id is free: handed out again, it is accepted
+					if rng.chance(1, 3) {
+						out.count("second.resubscribe-sid-free-again");
+						self.lines.push("cl subscribe".into());
+						let e_id = self.next_id;
+						let e_op = self.next_op;
+						self.next_id += 2;
+						self.next_op += 1;
+						self.deliver(&accept(e_id, &sid));
+						self.lines.push(format!("cl drop {e_op}"));
+						owed.push(Owed::UnsubAck(e_id + 1, rng.below(16)));
+					}
+				}
+				self.old_sids.push(sid);
+				owed
+			}
 			_ => {
 				out.count("cycle.sub.abandoned");
 				self.lines.push("cl subscribe".into());
@@ -753,6 +949,7 @@ fn gen_case(rng: &mut Rng, caseno: u64, out: &mut Out, long: Option<(u64, u64)>)
 		next_id: 0,
 		next_op: 0,
 		sid_counter: 0,
+		reserved_of_refused: vec![],
 		lines: vec![format!("case {caseno} client {} {cap} {fcap}{opts}", if str_ids { "str" } else { "num" })],
 	};
 	match long {
@@ -775,9 +972,9 @@ fn gen_case(rng: &mut Rng, caseno: u64, out: &mut Out, long: Option<(u64, u64)>)
 			for _ in 0..rounds {
 				let k = rng.range(1, 4);
 				let mut owed: Vec<Owed> = vec![];
-				let single_kind = if rng.chance(2, 3) { Some(rng.below(16)) } else { None };
+				let single_kind = if rng.chance(2, 3) { Some(rng.below(21)) } else { None };
 				for _ in 0..k {
-					let kind = single_kind.unwrap_or_else(|| rng.below(17));
+					let kind = single_kind.unwrap_or_else(|| rng.below(22));
 					owed.extend(g.cycle(rng, kind, out));
 					if rng.chance(1, 5) {
 						g.sizes();
@@ -798,8 +995,14 @@ fn gen_case(rng: &mut Rng, caseno: u64, out: &mut Out, long: Option<(u64, u64)>)
 	}
 	// everything is finished now: a response bearing any id used so far matches nothing pending and must make the
 	// client give up the connection (last line of the case: the connection is gone afterwards)
-	if g.next_id > 0 && rng.chance(1, 3) {
-		let id = rng.below(g.next_id);
+	let probe_reserved = !g.reserved_of_refused.is_empty() && rng.chance(1, 2);
+	if g.next_id > 0 && (probe_reserved || rng.chance(1, 3)) {
+		let id = if probe_reserved {
+			out.count("stale-response.reserved-id-of-refused-subscribe");
+			*rng.pick(&g.reserved_of_refused)
+		} else {
+			rng.below(g.next_id)
+		};
 		if rng.chance(2, 3) {
 			out.count("stale-response");
 			let payload = if rng.chance(1, 2) { "\"result\":true" } else { "\"error\":{\"code\":-32000,\"message\":\"late\"}" };
@@ -845,7 +1048,7 @@ fn main() {
 		let mut caseno = 0u64;
 		// every cycle kind repeated: 1..200 (quick: 3 lengths), thorough adds 2000
 		let reps: Vec<u64> = if a.tier == "thorough" { vec![1, 2, 7, 50, 200, 2000] } else { vec![1, 5, 200] };
-		for kind in 0..16u64 {
+		for kind in 0..21u64 {
 			for r in &reps {
 				caseno += 1;
 				let ls = gen_case(&mut rng, caseno, &mut out, Some((kind, *r)));
